@@ -65,6 +65,7 @@ type op struct {
 	chosenCase   int
 	completed    bool // a peer performed the rendezvous on behalf of this thread
 	sendOnClosed bool
+	realRecv     bool // foreign data channel: the thread receives for real after it was granted
 }
 
 // Choice is one entry of the enabled set at a scheduling point.
@@ -293,8 +294,14 @@ func (r *runtimeState) enabledLocked(t *thread) (bool, []int) {
 	case OpSend:
 		return r.canSendLocked(o.obj.(*chanState), t), nil
 	case OpRecv:
+		if st := o.obj.(*chanState); !st.owned && st.data && st.id != 0 && len(st.buf) == 0 && !st.closed {
+			return true, nil
+		}
 		return r.canRecvLocked(o.obj.(*chanState), t), nil
 	case OpSelect:
+		if r.foreignDataSelectLocked(o.sel) {
+			return true, []int{-3}
+		}
 		ready := r.readyCasesLocked(o.sel, t)
 		if len(ready) > 0 {
 			return true, ready
@@ -543,7 +550,11 @@ func (r *runtimeState) performLocked(t *thread, cas int) {
 	case OpSend:
 		r.doSendLocked(o.obj.(*chanState), t)
 	case OpRecv:
-		r.doRecvLocked(o.obj.(*chanState), t)
+		if st := o.obj.(*chanState); !st.owned && st.data && st.id != 0 && len(st.buf) == 0 && !st.closed {
+			o.realRecv = true
+		} else {
+			r.doRecvLocked(st, t)
+		}
 	case OpSelect:
 		o.chosenCase = cas
 		if cas >= 0 {
